@@ -97,6 +97,8 @@ struct G<'r> {
     features: std::collections::BTreeSet<&'static str>,
     /// 0..=2: how often trap-prone constructs are emitted (Mixed / Separated control code)
     hostility: u32,
+    /// a host import placed in the table (call_indirect to an imported function)
+    import_slot: Option<(&'static HostFn, u32)>,
 }
 
 struct Fx {
@@ -397,12 +399,17 @@ impl<'r> G<'r> {
                 }
                 self.feat("host-import-call");
                 let h = cands[self.rng.usize_below(cands.len())];
-                let mut s = format!("(call ${}", h.name);
+                let via_table = matches!(self.import_slot, Some((ih, _)) if ih.name == h.name) && self.rng.bool();
+                let mut s = if via_table { "(call_indirect (type $ti)".to_string() } else { format!("(call ${}", h.name) };
                 // scalar-returning imports are pure functions of their arguments; buffer ids are not
                 let at = if h.result == 'I' { taint } else { Taint::Dat };
                 for _ in 0..h.n_slots() {
                     s.push(' ');
                     s.push_str(&self.expr(fx, T::I32, at, d - 1));
+                }
+                if via_table {
+                    self.feat("call_indirect-to-host-import");
+                    s.push_str(&format!(" (i32.const {})", self.import_slot.unwrap().1));
                 }
                 s.push(')');
                 s
@@ -831,7 +838,7 @@ impl<'r> G<'r> {
 
 pub fn generate(rng: &mut Rng, fl: Flavour) -> Program {
     let hostility = rng.below(3) as u32;
-    let mut g = G { rng, fl, funcs: vec![], globals: vec![], const_globals: vec![], imports: vec![], table_size: 0, label_n: 0, features: Default::default(), hostility };
+    let mut g = G { rng, fl, funcs: vec![], globals: vec![], const_globals: vec![], imports: vec![], table_size: 0, label_n: 0, features: Default::default(), hostility, import_slot: None };
     let sep = g.separated();
     // ---- imports
     if g.rng.chance(2, 3) {
@@ -908,8 +915,13 @@ pub fn generate(rng: &mut Rng, fl: Flavour) -> Program {
     let mut table_wat = String::new();
     if g.rng.chance(3, 4) {
         let leaves: Vec<usize> = (0..g.funcs.len()).filter(|i| g.funcs[*i].leaf).collect();
-        let size = leaves.len() as u32 + 1 + g.rng.below(3) as u32;
+        let mut size = leaves.len() as u32 + 1 + g.rng.below(3) as u32;
+        let imp = g.imports.iter().copied().find(|h| h.result == 'I');
+        if imp.is_some() {
+            size += 1;
+        }
         g.table_size = size;
+        let size = if imp.is_some() { size - 1 } else { size };
         let start = 1 + g.rng.below((size - leaves.len() as u32) as u64) as u32; // slot 0 and the tail stay null
         let start = start.min(size - leaves.len() as u32);
         let mut names = vec![];
@@ -918,7 +930,13 @@ pub fn generate(rng: &mut Rng, fl: Flavour) -> Program {
             names.push(g.funcs[*li].name.clone());
         }
         let max = if g.rng.bool() { format!(" {}", size + 3) } else { String::new() };
-        table_wat = format!("(table $T {size}{max} funcref)\n(elem (i32.const {start}) {})\n", names.join(" "));
+        let total = g.table_size;
+        let max = if max.is_empty() { max } else { format!(" {}", total + 3) };
+        table_wat = format!("(table $T {total}{max} funcref)\n(elem (i32.const {start}) {})\n", names.join(" "));
+        if let Some(h) = imp {
+            g.import_slot = Some((h, total - 1));
+            table_wat.push_str(&format!("(type $ti (func {}))\n(elem (i32.const {}) ${})\n", h.wat_sig(), total - 1, h.name));
+        }
     }
     // ---- bodies
     let mut funcs_wat = String::new();
